@@ -159,6 +159,25 @@ type pktCase struct {
 	NCookies  int    `json:"reply_cookies"` // response
 	Seed      uint64 `json:"seed"`
 	Nonce     uint64 `json:"nonce_stream"` // selects the deterministic crypto/rand stream
+	// byte patterns at the edges of opaque values (cookies, request identifier): opaque means any bytes, including
+	// 0x00 / 0xff runs where padding or terminators would be
+	ZeroTail int `json:"zero_tail"` // last n bytes of every cookie and of the identifier are 0x00
+	ZeroHead int `json:"zero_head"` // first n bytes likewise
+	FFTail   int `json:"ff_tail"`
+}
+
+// edges applies the case's edge patterns to an opaque value.
+func (c pktCase) edges(b []byte) []byte {
+	for i := 0; i < c.ZeroHead && i < len(b); i++ {
+		b[i] = 0
+	}
+	for i := 0; i < c.FFTail && i < len(b); i++ {
+		b[len(b)-1-i] = 0xff
+	}
+	for i := 0; i < c.ZeroTail && i < len(b); i++ {
+		b[len(b)-1-i] = 0
+	}
+	return b
 }
 
 type failer interface {
@@ -206,15 +225,15 @@ func build(c pktCase) (b, key, otherKey, reqID []byte, cookies [][]byte) {
 		var d ntske.Data
 		d.C2sKey, d.S2cKey = c2s, s2c
 		for i := 0; i < c.Pool; i++ {
-			d.Cookie = append(d.Cookie, bytesOf(c.Seed+uint64(1000*i), c.CookieLen))
+			d.Cookie = append(d.Cookie, c.edges(bytesOf(c.Seed+uint64(1000*i), c.CookieLen)))
 		}
 		pkt, id := nts.NewRequestPacket(d)
 		nts.EncodePacket(&b, &pkt)
 		return b, c2s, s2c, id, [][]byte{d.Cookie[0]}
 	}
-	reqID = bytesOf(c.Seed+7, 32)
+	reqID = c.edges(bytesOf(c.Seed+7, 32))
 	for i := 0; i < c.NCookies; i++ {
-		cookies = append(cookies, bytesOf(c.Seed+uint64(2000*i), c.CookieLen))
+		cookies = append(cookies, c.edges(bytesOf(c.Seed+uint64(2000*i), c.CookieLen)))
 	}
 	pkt := nts.NewResponsePacket(cookies, s2c, reqID)
 	nts.EncodePacket(&b, &pkt)
@@ -265,6 +284,12 @@ func checkPacket(t failer, c pktCase, fullSweep bool) (st sweepStats) {
 	}
 	if c.Kind == "response" && !sameCookies(v.cookies, cookies) {
 		t.Fatalf("accepted response: client pool holds %d cookies, %d were sealed (or contents differ)", len(v.cookies), len(cookies))
+	}
+	if c.Kind == "request" && !zeroPaddedEq(v.cookie, cookies[0]) {
+		t.Fatalf("accepted request: the cookie the server would open (%x) is not the one the client sent (%x)", v.cookie, cookies[0])
+	}
+	if c.Kind == "request" && !zeroPaddedEq(v.uid, reqID) {
+		t.Fatalf("accepted request: decoded identifier %x, sent %x", v.uid, reqID)
 	}
 	l, _ := walkOwn(b)
 	mustReject := func(i int) bool { // byte index -> change must be rejected
@@ -467,6 +492,11 @@ func genPkt(t *rapid.T) pktCase {
 		S2C:    hx(bytesOf(rapid.Uint64().Draw(t, "s2c"), 32)),
 		Header: hx(bytesOf(rapid.Uint64().Draw(t, "hdr"), 48)),
 		Seed:   rapid.Uint64Range(0, 1<<40).Draw(t, "seed"),
+	}
+	if rapid.IntRange(0, 2).Draw(t, "edges") == 0 {
+		c.ZeroTail = rapid.SampledFrom([]int{0, 1, 1, 2, 3, 4, 5, 8, 16, 1000}).Draw(t, "zerotail")
+		c.ZeroHead = rapid.SampledFrom([]int{0, 0, 1, 2, 4}).Draw(t, "zerohead")
+		c.FFTail = rapid.SampledFrom([]int{0, 0, 1, 4}).Draw(t, "fftail")
 	}
 	// cookie fields shorter than the 28-byte minimum extension field are skipped by the decoder by design
 	c.CookieLen = rapid.OneOf(rapid.Just(124), rapid.IntRange(24, 200), rapid.SampledFrom([]int{100, 104, 24, 25, 28})).Draw(t, "cookielen")
